@@ -158,33 +158,24 @@ func recvTypeName(f *ssa.Function) string {
 }
 
 func sigString(f *ssa.Function) string {
-	return types.TypeString(f.Signature, func(p *types.Package) string { return p.Path() })
+	q := func(p *types.Package) string { return p.Path() }
+	var ps, rs []string
+	for i := 0; i < f.Signature.Params().Len(); i++ {
+		ps = append(ps, types.TypeString(f.Signature.Params().At(i).Type(), q)) // types only: parameter names are free to change
+	}
+	for i := 0; i < f.Signature.Results().Len(); i++ {
+		rs = append(rs, types.TypeString(f.Signature.Results().At(i).Type(), q))
+	}
+	v := ""
+	if f.Signature.Variadic() {
+		v = "..."
+	}
+	return "func(" + strings.Join(ps, ",") + v + ")(" + strings.Join(rs, ",") + ")"
 }
 
 func funcTokens(f *ssa.Function) []string {
 	set := map[string]bool{}
-	for _, g := range withClosures(f) {
-		eachInstr(g, func(ins ssa.Instruction) {
-			switch x := ins.(type) {
-			case ssa.CallInstruction:
-				c := x.Common()
-				if c.IsInvoke() {
-					set["i:"+c.Method.Name()] = true
-				} else if sc := c.StaticCallee(); sc != nil {
-					set["c:"+sc.Name()] = true
-				}
-			case *ssa.FieldAddr:
-				set["f:"+fmt.Sprint(x.Field)+":"+types.TypeString(x.Type(), nil)] = true
-			}
-			for _, op := range ins.Operands(nil) {
-				if k, ok := (*op).(*ssa.Const); ok && k != nil {
-					if s, ok := constString(k); ok && len(s) > 0 && len(s) < 60 {
-						set["s:"+s] = true
-					}
-				}
-			}
-		})
-	}
+	tokensInto(f, set, 0)
 	set[fmt.Sprintf("b:%d", len(f.Blocks)/3)] = true
 	var out []string
 	for k := range set {
@@ -193,6 +184,42 @@ func funcTokens(f *ssa.Function) []string {
 	sort.Strings(out)
 	return out
 }
+
+// tokensInto collects the fingerprint of f; callees that the reference tree does not know (code split out of f)
+// contribute their own tokens instead of their name.
+func tokensInto(f *ssa.Function, set map[string]bool, depth int) {
+	for _, g := range withClosures(f) {
+		for _, b := range g.Blocks {
+			for _, ins := range b.Instrs {
+				switch x := ins.(type) {
+				case ssa.CallInstruction:
+					c := x.Common()
+					if c.IsInvoke() {
+						set["i:"+c.Method.Name()] = true
+					} else if sc := c.StaticCallee(); sc != nil {
+						if tokenRefNames != nil && depth < 2 && sc.Synthetic == "" && len(sc.Blocks) > 0 && inModule(sc) && !tokenRefNames[sc.String()] && sc != f {
+							tokensInto(sc, set, depth+1)
+						} else {
+							set["c:"+sc.Name()] = true
+						}
+					}
+				case *ssa.FieldAddr:
+					set["f:"+fmt.Sprint(x.Field)+":"+types.TypeString(x.Type(), nil)] = true
+				}
+				for _, op := range ins.Operands(nil) {
+					if k, ok := (*op).(*ssa.Const); ok && k != nil {
+						if s, ok := constString(k); ok && len(s) > 0 && len(s) < 60 {
+							set["s:"+s] = true
+						}
+					}
+				}
+			}
+		}
+	}
+}
+
+// tokenRefNames: while the analysed tree is compared with the reference, the reference's function names.
+var tokenRefNames map[string]bool
 
 func buildInventory(P *Program) *refInventory {
 	inv := &refInventory{Funcs: map[string]refFunc{}, Types: map[string]refType{}}
@@ -291,6 +318,7 @@ func jaccard(a, b []string) float64 {
 func loadRenames(P *Program, path string) {
 	curRenames = &renameTable{funcAlias: map[*ssa.Function]string{}, funcByRef: map[string]*ssa.Function{}, fieldAlias: map[*types.Var]string{}, typeNew2Old: map[string]string{}, typeOld2New: map[string]string{}}
 	haveReference = false
+	curProgram = P
 	b, err := os.ReadFile(path)
 	if err != nil {
 		return
@@ -299,7 +327,12 @@ func loadRenames(P *Program, path string) {
 	if json.Unmarshal(b, &ref) != nil {
 		return
 	}
+	tokenRefNames = map[string]bool{}
+	for k := range ref.Funcs {
+		tokenRefNames[k] = true
+	}
 	cur := buildInventory(P)
+	tokenRefNames = nil
 	t := curRenames
 	haveReference = true
 	refFuncNames = map[string]bool{}
